@@ -125,22 +125,24 @@ creations are received, and finally the start result.  Predicted: `checkAllInsta
 `awaited` = … (the pool's log line "All instances runs awaited."). -/
 
 def liftEv (perinst : Bool) (p : PSt) : Event → List PEvent
-  | .instanceExit id .ammoEnd => [.iter id { ammoOk := false } false false]
+  | .instanceExit id .ammoEnd => [.iter id { ammoOk := false } false false, .recvRun p.pending.length]
   | .instanceExit id .scheduleEnd =>
-      if perinst || p.base.sharedRpsDone then [.iter id { left := 0 } false false] else []
-  | .instanceExit id .cancelled => [.iter id { ctxDone := true } true false]
-  | .instanceExit id .error => [.panic id]
+      if perinst || p.base.sharedRpsDone then [.iter id { left := 0 } false false, .recvRun p.pending.length] else []
+  | .instanceExit id .cancelled => [.iter id { ctxDone := true } true false, .recvRun p.pending.length]
+  | .instanceExit id .error => [.panic id, .recvRun p.pending.length]
   | .outOfAmmoResult => []      -- the reaction of the await loop to the result it has just received
   | .rpsFinished => match p.base.running.head? with
       | some id => [.iter id { waitOk := false } false true]
       | none => []
+  -- the run is cancelled (by the caller, or by the pool failing on the error result of a creation that failed in its
+  -- goroutine: that result is received now)
+  | .runCancel => .loop .runCancel :: List.replicate p.pending.length (.recvRun 0)
   | ev => [.loop ev]
 
-/-- lift and run abstract events; every result in flight is received at once -/
+/-- lift and run abstract events: the result of an exit is received at once (the abstract replay puts the reaction of the
+await loop right after the exit, too) -/
 def poolRunLift (c : Cfg) (perinst : Bool) (p : PSt) (evs : List Event) : PSt :=
-  evs.foldl (fun p ev =>
-    let p := poolRun c p (liftEv perinst p ev)
-    poolRun c p (List.replicate p.pending.length (.recvRun 0))) p
+  evs.foldl (fun p ev => poolRun c p (liftEv perinst p ev)) p
 
 def poolReplay (perinst : Bool) (o : Obs) : PSt :=
   let c : Cfg := { perInstance := perinst }
@@ -165,7 +167,7 @@ def poolReplay (perinst : Bool) (o : Obs) : PSt :=
     else
       let p := poolRunLift c perinst p (envEvents perinst o)
       poolRunLift c perinst p [.wait { ctxDone := p.base.startCtxDone, tok := p.base.toks.head?, timerWins := true } true 0]
-  poolRun c p [.recvStart]
+  poolRun c p (List.replicate p.pending.length (.recvRun 0) ++ [.recvStart])
 
 def natList (l : List Nat) : String := ",".intercalate (l.map toString)
 
